@@ -1,6 +1,8 @@
 """C19 — training and scoring never modify or alias caller-owned data."""
 from __future__ import annotations
 
+import ast
+
 from ..engines import own as owneng
 from ..engines.own import F, G, U, fmt_org, fmt_orgs
 
@@ -52,8 +54,47 @@ PARAM_ATTRS = {
 CTOR_ROOTS = {"gmm:GMMMachine.__init__", "ivector:IVectorMachine.__init__", "factor_analysis:FactorAnalysisBase.__init__"}
 
 
+def check_operator_alias(P, R, own):
+    """a += b accumulates b into a; a must not end up *holding* b's arrays (the next += would then change b)."""
+    n = 0
+    for cn in ("GMMStats", "IVectorStats"):
+        ci = P.cls(cn)
+        for mn in ("__iadd__",):
+            f = ci.methods.get(mn)
+            if f is None:
+                continue
+            R.analysed(f)
+            me, other = f.posparams[0], f.posparams[1]
+            sm = own.sums[f.key]
+            bad = []
+            # immutable scalar fields (a parameter of init_fields / __init__ with a numeric default) cannot be aliased
+            scalars = set()
+            for m_ in (ci.methods.get("init_fields"), ci.methods.get("__init__")):
+                if m_ is None:
+                    continue
+                a_ = m_.node.args
+                pos_ = a_.posonlyargs + a_.args
+                for arg_, d_ in zip(pos_[len(pos_) - len(a_.defaults):], a_.defaults):
+                    if isinstance(d_, ast.Constant) and isinstance(d_.value, (int, float)) and not isinstance(d_.value, bool):
+                        scalars.add(arg_.arg)
+            for (o, attr), (val, wit) in sm.stores.items():
+                if o[1] != me or attr in scalars:
+                    continue
+                al = [x for x in val.all_origins() if isinstance(x, tuple) and x[1] == other]
+                if al:
+                    bad.append((attr, al, wit))
+            n += 1
+            if bad:
+                for attr, al, wit in bad:
+                    R.violation("OWN.iadd-alias", f.key, f"{me}.{attr} after `{me} += {other}`", f"{me}.{attr} holds {fmt_org(al[0])} itself ({wit}): the accumulator shares memory with its right operand, and the next `+=` adds into that operand's arrays")
+            else:
+                R.ok("OWN.iadd-alias", f.key, f"`{me} += {other}` stores no array of {other} into {me}", "")
+    return n
+
+
 def run(P, R, tier):
     own = owneng.Own(P)
+    R.floor("OWN.iadd-alias operators", check_operator_alias(P, R, own), 2)
     R.extra["own"] = {"functions": len(own.funcs), "fixpoint_iterations": own.iterations, "mutation_sinks_evaluated": own.sink_count, "unmodelled_callees": sorted(f"{a}: {b}" for a, b in own.unmodelled)}
     n_params = 0
     for key in ROOTS:
